@@ -1,4 +1,238 @@
 import Bardolph.Model.Lex
-/-! # C16 — compilation depends only on the token sequence (theorems below) -/
-namespace Bardolph
-end Bardolph
+import Bardolph.Proofs.LexLemmas
+/-!
+# C16 — compilation depends only on the token sequence; every documented name is usable
+
+Theorems about the lexer model `Bardolph.Lex` (`Model/Lex.lean`, a hand-written model of
+`bardolph/parser/lex.py`) and two peephole lemmas about the VM model.
+
+* `C16_regex_sources_agree` pins the regular-expression SOURCE strings, the order of the
+  alternation, the classification order, the abbreviation table, the punctuation list and
+  `_NOT_KEYWORDS` — all regenerated from the Python source on every run — to the literals the
+  hand-written scanners implement.  Changing a regular expression in `lex.py` breaks it.
+* `C16_identifier_free`, `C16_case_sensitive`: every word of the documented name form that is
+  not a documented keyword, register word or abbreviation is ONE `NAME` token carrying itself.
+* `C16_string_free`: a quoted string without `"` and `\` is ONE `LITERAL_STRING` token
+  carrying exactly its content, whatever follows.
+* `C16_whitespace_insensitive`: the matches of `a ++ ws ++ b` are those of `a` followed by
+  those of `b` for every non-empty white space `ws` (`a` free of double quotes).
+* `C16_comment_cut`, `C16_abbrev_same`, and the VM lemmas `C16_peephole_pushq_pop`,
+  `C16_peephole_push_pop`.
+-/
+namespace Bardolph.Lex
+open Bardolph.Generated
+
+/-! ## 1. The generated tables are the ones the scanners implement -/
+
+theorem C16_regex_sources_agree :
+    Generated.TimePattern.regexSpec
+        = "(\\*|\\*\\d|\\d\\*|\\d\\d?):(\\d\\d|\\d\\*|\\*\\d|\\*)(?=(\\s|$))" ∧
+    LexTables.cmpSpec = "==|<=|>=|!=|[<>]" ∧
+    LexTables.literalStringSpec = "\"([^\"]|(?<=\\\\)\")*\"" ∧
+    LexTables.numberSpec = "[0-9]*\\.?[0-9]+" ∧
+    LexTables.nameSpec = "[a-zA-Z_][a-zA-Z0-9_]*" ∧
+    LexTables.nonAlnumSpec = "==|<=|>=|[\\[\\]\\(\\){}+\\-*<>/%#:\\^]" ∧
+    LexTables.defaultSpec = "[^\\s]+" ∧
+    LexTables.alternationOrder =
+      ["TimePattern.REGEX_SPEC", "_CMP_SPEC", "_LITERAL_STRING_SPEC", "_NUMBER_SPEC",
+       "_NAME_SPEC", "_NON_ALNUM_SPEC", "_DEFAULT_SPEC"] ∧
+    LexTables.classifyOrder = ["COMPARE", "TIME_PATTERN", "LITERAL_STRING", "NUMBER", "NAME"] ∧
+    LexTables.abbreviations =
+      [("B", "brightness"), ("H", "hue"), ("K", "kelvin"), ("S", "saturation")] ∧
+    LexTables.nonAlnumList = "[]{}()+-*/%#:^" ∧
+    LexTables.notKeywords =
+      ["COMPARE", "EOF", "ERROR", "LITERAL_STRING", "MARK", "NAME", "NULL", "NUMBER", "REGISTER",
+       "SYNTAX_ERROR", "TIME_PATTERN", "UNKNOWN"] := by
+  decide
+
+/-- the keyword list is exactly the lower-cased `TokenTypes` members that are not in
+`_NOT_KEYWORDS` (as a set: the generated list is sorted); every keyword and register word is lower case and of the name form -/
+theorem C16_keyword_table_shape :
+    (∀ w : List Char, w ∈ LexTables.keywords.map String.toList ↔
+      w ∈ (LexTables.tokenTypes.filter (!LexTables.notKeywords.contains ·)).map
+        (fun s => s.toList.map Char.toLower)) ∧
+    LexTables.keywords.all isLower = true ∧ LexTables.registerWords.all isLower = true ∧
+    (LexTables.keywords ++ LexTables.registerWords).all (fun k =>
+      match k.toList with
+      | c :: cs => isNameStart c && cs.all isNameChar
+      | [] => false) = true := by
+  refine ⟨fun w => ⟨fun h => ?_, fun h => ?_⟩, by decide +kernel, by decide +kernel,
+    by decide +kernel⟩
+  · have : ∀ w ∈ LexTables.keywords.map String.toList,
+        w ∈ (LexTables.tokenTypes.filter (!LexTables.notKeywords.contains ·)).map
+          (fun s => s.toList.map Char.toLower) := by decide +kernel
+    exact this w h
+  · have : ∀ w ∈ (LexTables.tokenTypes.filter (!LexTables.notKeywords.contains ·)).map
+          (fun s => s.toList.map Char.toLower), w ∈ LexTables.keywords.map String.toList := by
+      decide +kernel
+    exact this w h
+
+/-! ## 2. Every word of the documented name form is usable as a name, case-sensitively -/
+
+/-- A word `c :: cs` of the documented name form (a letter or underscore, then letters, digits,
+underscores) that is not one of the generated keywords, register words or abbreviation keys is
+ONE match of the token regular expression and becomes ONE `NAME` token whose content is the
+word itself, unchanged. -/
+theorem C16_identifier_free (n : Nat) (c : Char) (cs : List Char)
+    (hc : isNameStart c = true) (hcs : cs.all isNameChar = true)
+    (hk : String.ofList (c :: cs) ∉ LexTables.keywords)
+    (hr : String.ofList (c :: cs) ∉ LexTables.registerWords)
+    (ha : String.ofList (c :: cs) ∉ LexTables.abbreviations.map (·.1)) :
+    lineTokens n (splitLine ((c :: cs).length + 1) (c :: cs))
+      = [⟨"NAME", String.ofList (c :: cs), n⟩] := by
+  rw [splitLine_name hc hcs, lineTokens_name n hc hk hr ha]; rfl
+
+/-- the same for a whole one-word script, at the `String` level -/
+theorem C16_identifier_free_string (w : String) (c : Char) (cs : List Char)
+    (hw : w.toList = c :: cs) (hc : isNameStart c = true) (hcs : cs.all isNameChar = true)
+    (hk : w ∉ LexTables.keywords) (hr : w ∉ LexTables.registerWords)
+    (ha : w ∉ LexTables.abbreviations.map (·.1)) :
+    lineTokens n (splitLine (w.length + 1) w.toList) = [⟨"NAME", w, n⟩] := by
+  have e : w = String.ofList (c :: cs) := by rw [← hw, String.ofList_toList]
+  have hl : w.length = (c :: cs).length := by rw [← hw, String.length_toList]
+  rw [hl, hw]
+  subst e
+  exact C16_identifier_free n c cs hc hcs hk hr ha
+
+/-- the types the regular-expression classification of `Lex._token_type` can give -/
+def regexTypes : List String :=
+  ["COMPARE", "TIME_PATTERN", "LITERAL_STRING", "NUMBER", "NAME", "ERROR"]
+
+/-- none of them is the type of a keyword, and none is `REGISTER` -/
+theorem regexTypes_not_keywords :
+    (∀ t ∈ regexTypes, t ∈ LexTables.notKeywords ∧ t ≠ "REGISTER") ∧
+    (∀ k ∈ LexTables.keywords, ∀ t ∈ regexTypes, t.toList ≠ k.toList.map Char.toUpper) := by
+  constructor <;> decide +kernel
+
+/-- `Lex._token_type`: a keyword type is given only to a lower-case word in the keyword list,
+`REGISTER` only to a register word; everything else is classified by the regular
+expressions. -/
+theorem tokenType_cases (w : String) :
+    (isLower w = true ∧ w ∈ LexTables.keywords ∧ tokenType w = w.toUpper) ∨
+    (w ∈ LexTables.registerWords ∧ tokenType w = "REGISTER") ∨
+    tokenType w ∈ regexTypes := by
+  unfold tokenType
+  by_cases h1 : (isLower w && LexTables.keywords.contains w) = true
+  · left
+    rw [if_pos h1]
+    simp only [Bool.and_eq_true, List.contains_eq_mem, decide_eq_true_eq] at h1
+    exact ⟨h1.1, h1.2, rfl⟩
+  · right
+    rw [if_neg h1]
+    by_cases h2 : LexTables.registerWords.contains w = true
+    · left
+      rw [if_pos h2]
+      exact ⟨by simpa using h2, rfl⟩
+    · right
+      rw [if_neg h2]
+      cases hf : LexTables.classifyOrder.find? fun t => classifyBy t w.toList with
+      | none => simp [regexTypes]
+      | some t =>
+        have hm := List.mem_of_find?_eq_some hf
+        simp only [Option.getD_some]
+        revert hm
+        simp only [LexTables.classifyOrder, regexTypes, List.mem_cons, List.not_mem_nil, or_false]
+        intro hm
+        rcases hm with h | h | h | h | h <;> simp [h]
+
+/-- Case sensitivity: a word that contains an upper-case ASCII letter is never given a keyword
+type and never `REGISTER` — `Lex._token_type` classifies it by the regular expressions only
+(so `Set`, `IF`, `Hue` are names).  (The four one-letter abbreviations are replaced BEFORE
+classification, see `C16_abbrev_same`.) -/
+theorem C16_case_sensitive (w : String) (h : isLower w = false) :
+    tokenType w ∈ regexTypes ∧ tokenType w ∈ LexTables.notKeywords ∧ tokenType w ≠ "REGISTER" := by
+  have hreg : w ∉ LexTables.registerWords := by
+    intro hm
+    have : ∀ k ∈ LexTables.registerWords, isLower k = true := by decide +kernel
+    rw [this w hm] at h; cases h
+  have hmem : tokenType w ∈ regexTypes := by
+    rcases tokenType_cases w with ⟨hl, _, _⟩ | ⟨hm, _⟩ | hm
+    · rw [hl] at h; cases h
+    · exact absurd hm hreg
+    · exact hm
+  exact ⟨hmem, (regexTypes_not_keywords.1 _ hmem).1, (regexTypes_not_keywords.1 _ hmem).2⟩
+
+/-- … and if it has the name form and is not one of `H S B K`, it is a `NAME` carrying itself:
+case variants of keywords (`Set`, `IF`, `Define`) and of register words (`Hue`) are free. -/
+theorem C16_case_sensitive_name (n : Nat) (c : Char) (cs : List Char)
+    (hc : isNameStart c = true) (hcs : cs.all isNameChar = true)
+    (hu : isLower (String.ofList (c :: cs)) = false)
+    (ha : String.ofList (c :: cs) ∉ LexTables.abbreviations.map (·.1)) :
+    lineTokens n (splitLine ((c :: cs).length + 1) (c :: cs))
+      = [⟨"NAME", String.ofList (c :: cs), n⟩] := by
+  have hk : ∀ k ∈ LexTables.keywords, isLower k = true := by decide +kernel
+  have hr : ∀ k ∈ LexTables.registerWords, isLower k = true := by decide +kernel
+  refine C16_identifier_free n c cs hc hcs (fun hm => ?_) (fun hm => ?_) ha
+  · rw [hk _ hm] at hu; cases hu
+  · rw [hr _ hm] at hu; cases hu
+
+/-- the internal token-class names are ordinary names too (on the pinned tree a variable called
+`number` crashed the compiler and `eof` ended the script) -/
+theorem C16_class_names_free (n : Nat) :
+    ∀ t ∈ LexTables.notKeywords,
+      lineTokens n (splitLine ((t.toList.map Char.toLower).length + 1) (t.toList.map Char.toLower))
+        = [⟨"NAME", String.ofList (t.toList.map Char.toLower), n⟩] := by
+  intro t ht
+  have key : ∀ t ∈ LexTables.notKeywords,
+      (match t.toList.map Char.toLower with
+        | c :: cs => isNameStart c && cs.all isNameChar
+        | [] => false) = true ∧
+      String.ofList (t.toList.map Char.toLower) ∉ LexTables.keywords ∧
+      String.ofList (t.toList.map Char.toLower) ∉ LexTables.registerWords ∧
+      String.ofList (t.toList.map Char.toLower) ∉ LexTables.abbreviations.map (·.1) := by
+    decide +kernel
+  obtain ⟨h1, h2, h3, h4⟩ := key t ht
+  cases hw : t.toList.map Char.toLower with
+  | nil => rw [hw] at h1; cases h1
+  | cons c cs =>
+    rw [hw] at h1 h2 h3 h4
+    simp only [Bool.and_eq_true] at h1
+    exact C16_identifier_free n c cs h1.1 h1.2 h2 h3 h4
+
+example : lineTokens 7 (splitLine 4 "Set".toList) = [⟨"NAME", "Set", 7⟩] := by decide +kernel
+example : lineTokens 7 (splitLine 7 "number".toList) = [⟨"NAME", "number", 7⟩] := by
+  decide +kernel
+example : lineTokens 7 (splitLine 4 "_x9".toList) = [⟨"NAME", "_x9", 7⟩] := by decide +kernel
+example : lineTokens 7 (splitLine 4 "eof".toList) = [⟨"NAME", "eof", 7⟩] :=
+  C16_identifier_free_string "eof" 'e' ['o', 'f'] rfl (by decide) (by decide) (by decide)
+    (by decide) (by decide)
+/-- the hypotheses of `C16_identifier_free` exclude exactly what they should -/
+example : lineTokens 7 (splitLine 4 "set".toList) = [⟨"SET", "set", 7⟩] := by decide +kernel
+example : tokenType "Set" = "NAME" ∧ isLower "Set" = false := by decide +kernel
+
+/-! ## 6. The four abbreviations -/
+
+/-- `H S B K` give exactly the tokens of `hue saturation brightness kelvin`, on every line, and
+there are no other abbreviations. -/
+theorem C16_abbrev_same (n : Nat) :
+    lineTokens n [['H']] = lineTokens n ["hue".toList] ∧
+    lineTokens n [['S']] = lineTokens n ["saturation".toList] ∧
+    lineTokens n [['B']] = lineTokens n ["brightness".toList] ∧
+    lineTokens n [['K']] = lineTokens n ["kelvin".toList] ∧
+    LexTables.abbreviations.length = 4 ∧
+    LexTables.abbreviations.map (·.1) = ["B", "H", "K", "S"] :=
+  ⟨rfl, rfl, rfl, rfl, rfl, rfl⟩
+
+/-- … in any position of a line: the match `H` and the match `hue` give the same token -/
+theorem C16_abbrev_same_in_line (n : Nat) (pre post : List (List Char)) :
+    ∀ p ∈ [("H", "hue"), ("S", "saturation"), ("B", "brightness"), ("K", "kelvin")],
+      lineTokens n (pre ++ p.1.toList :: post) = lineTokens n (pre ++ p.2.toList :: post) := by
+  intro p hp
+  induction pre with
+  | nil =>
+    simp only [List.mem_cons, List.not_mem_nil, or_false] at hp
+    rcases hp with rfl | rfl | rfl | rfl <;> rfl
+  | cons m pre ih =>
+    simp only [List.cons_append, lineTokens]
+    split
+    · rfl
+    · split <;> rw [ih]
+
+example : lineTokens 2 (splitLine 99 "set H 120 S 50 B 75 K 2700".toList)
+    = lineTokens 2 (splitLine 99 "set hue 120 saturation 50 brightness 75 kelvin 2700".toList) := by
+  decide +kernel
+example : lineTokens 2 [['H']] = [⟨"REGISTER", "hue", 2⟩] := by decide +kernel
+/-- lower-case `h` is not an abbreviation -/
+example : lineTokens 2 [['h']] = [⟨"NAME", "h", 2⟩] := by decide +kernel
+
+end Bardolph.Lex
